@@ -144,6 +144,8 @@ type Frame struct {
 	nilok    map[string]bool
 	preSt    *State
 	constRefs map[string][]*ssa.DebugRef
+	refs      map[string][]*ssa.DebugRef // every reference (definition or use) of a named local, in source order
+	phis      map[string][]*ssa.Phi      // merge points of a named local
 	threaded map[[2]int][]edgeIn
 }
 
@@ -1000,7 +1002,7 @@ func findLoops(fn *ssa.Function) map[int]*loopInfo {
 func (x *Exec) newFrame(fn *ssa.Function, spec *FuncSpec, prefix string) *Frame {
 	fr := &Frame{fn: fn, spec: spec, vals: map[ssa.Value]Value{}, prefix: prefix,
 		blockOut: map[int]*State{}, edge: map[[2]int]string{}, occ: map[string]int{},
-		names: map[string][]ssa.Value{}, cbSpecs: map[string]*FuncSpec{}, nilok: map[string]bool{}, constRefs: map[string][]*ssa.DebugRef{}, threaded: map[[2]int][]edgeIn{}}
+		names: map[string][]ssa.Value{}, cbSpecs: map[string]*FuncSpec{}, nilok: map[string]bool{}, constRefs: map[string][]*ssa.DebugRef{}, refs: map[string][]*ssa.DebugRef{}, phis: map[string][]*ssa.Phi{}, threaded: map[[2]int][]edgeIn{}}
 	fr.loops = findLoops(fn)
 	for _, l := range fr.loops {
 		if spec != nil {
@@ -1023,6 +1025,7 @@ func (x *Exec) newFrame(fn *ssa.Function, spec *FuncSpec, prefix string) *Frame 
 				}
 				if obj := d.Object(); obj != nil {
 					fr.names[obj.Name()] = append(fr.names[obj.Name()], d.X)
+					fr.refs[obj.Name()] = append(fr.refs[obj.Name()], d)
 					if _, isConst := d.X.(*ssa.Const); isConst {
 						fr.constRefs[obj.Name()] = append(fr.constRefs[obj.Name()], d)
 					}
@@ -1030,6 +1033,9 @@ func (x *Exec) newFrame(fn *ssa.Function, spec *FuncSpec, prefix string) *Frame 
 			}
 			if a, ok := in.(*ssa.Alloc); ok && a.Comment != "" {
 				fr.names["&"+a.Comment] = append(fr.names["&"+a.Comment], a)
+			}
+			if ph, ok := in.(*ssa.Phi); ok && ph.Comment != "" {
+				fr.phis[ph.Comment] = append(fr.phis[ph.Comment], ph)
 			}
 		}
 	}
